@@ -95,7 +95,8 @@ PLAIN = ("QubitUnitary", "DiagonalQubitUnitary", "ControlledQubitUnitary", "Spec
 
 
 def _floats(data):
-    return [float(np.real(np.asarray(p))) for p in data]
+    # a broadcast dimension of size one is squeezed (batch of one = the operator itself)
+    return [float(np.real(np.asarray(p).reshape(-1)[0])) for p in data]
 
 
 def as_leaf(op):
@@ -108,8 +109,8 @@ def as_leaf(op):
     if name == "Identity":
         return ("skip",)
     if name == "GlobalPhase":
-        return ("phase", cmath.exp(-1j * float(np.real(np.asarray(op.data[0])))))
-    if getattr(op, "batch_size", None) is not None:
+        return ("phase", cmath.exp(-1j * _floats(op.data)[0]))
+    if getattr(op, "batch_size", None) not in (None, 1):
         raise Unsupported(f"batched operator {name}")
     if name in RG.TABLE and len(wires) == RG.TABLE[name][0]:
         return ("u", RG.matrix(name, _floats(op.data)), wires)
@@ -365,3 +366,60 @@ def bits_index(values_sizes):
     for v, nb in values_sizes:
         idx = (idx << nb) | (int(v) & ((1 << nb) - 1))
     return idx
+
+
+# ------------------------------------------------------------------------------------------------ device
+def device_state(ops, order, spare=6):
+    """State of default.qubit after `ops` on wires `order` (first wire most significant).  If the decompositions allocate
+    work wires dynamically, spare device wires are offered; returns (state on `order` with the spares in |0>, squared norm
+    found with a spare wire not in |0>)."""
+    import pennylane as qp
+
+    n = len(order)
+    tape = qp.tape.QuantumScript(list(ops), [qp.state()])
+    try:
+        dev = qp.device("default.qubit", wires=list(order))
+        res = np.asarray(qp.execute([tape], dev)[0], dtype=complex).reshape(-1)
+        return res, 0.0
+    except qp.exceptions.AllocationError:
+        sp = [f"_spare{i}" for i in range(spare)]
+        dev = qp.device("default.qubit", wires=list(order) + sp)
+        res = np.asarray(qp.execute([tape], dev)[0], dtype=complex).reshape(2 ** n, -1)
+        return res[:, 0], float(np.sum(np.abs(res[:, 1:]) ** 2))
+
+
+# ------------------------------------------------------------------------------------------------ wire layouts
+LAYOUTS = ["seq", "work0", "mixed", "rev"]
+_POOL = [2, "q", 0, "w", 7, "e", 1, "r", 9, "t", 3, "y", 11, "u", 4, "i", 13, "o", 5, "p", 6, "a", 8, "s", 10, "d", 12, "f"]
+
+
+def layout(regs, lay):
+    """regs: [(name, size)] -> {name: [labels]}.  seq: consecutive ints in register order; rev: descending ints;
+    work0: registers named work* first (so the first work wire has the falsy label 0); mixed: ints and strings,
+    registers interleaved."""
+    tot = sum(s for _, s in regs)
+    out = {}
+    if lay in ("seq", "rev"):
+        c = 0
+        for name, s in regs:
+            out[name] = [(c + i) if lay == "seq" else (tot - 1 - c - i) for i in range(s)]
+            c += s
+        return out
+    if lay == "work0":
+        c = 0
+        for name, s in sorted(regs, key=lambda r: 0 if r[0].startswith("work") else 1):
+            out[name] = list(range(c, c + s))
+            c += s
+        return out
+    if lay == "mixed":
+        out = {name: [] for name, _ in regs}
+        left = {name: s for name, s in regs}
+        p = 0
+        while any(left.values()):
+            for name, _ in regs:
+                if left[name]:
+                    out[name].append(_POOL[p] if p < len(_POOL) else f"m{p}")
+                    p += 1
+                    left[name] -= 1
+        return out
+    raise ValueError(lay)
